@@ -46,6 +46,12 @@ Definition s_meta_renamed : bytes := [100;105;115;107;46;109;101;116;97;46;114;1
 Definition s_db_removed : bytes := [100;105;115;107;46;100;98;46;114;101;109;111;118;101;100]%N.          (* disk.db.removed *)
 Definition s_clear_closed : bytes := [100;105;115;107;46;99;108;101;97;114;46;99;108;111;115;101;100]%N.  (* disk.clear.closed *)
 
+Definition s_create_cleaned : bytes := [100;105;115;107;46;99;114;101;97;116;101;46;99;108;101;97;110;101;100]%N.  (* disk.create.cleaned *)
+Definition s_delete_undefined : bytes := [100;105;115;107;46;100;101;108;101;116;101;46;117;110;100;101;102;105;110;101;100]%N.  (* disk.delete.undefined *)
+
+Definition unset_meta (im : image) (name : bytes) : image :=
+  mkImage (aremove name (im_meta im)) (im_dirs im).
+
 Definition set_dir (im : image) (name : bytes) (r : option rows_t) : image :=
   mkImage (im_meta im) (match r with Some x => ainsert name x (im_dirs im) | None => aremove name (im_dirs im) end).
 Definition set_meta (im : image) (name : bytes) (f : fams_t) : image :=
@@ -60,17 +66,20 @@ Definition dstep (d : dstate) (c : call) : dstate * bresp * list (bytes * image)
       let name := parent ++ s_tables_sep ++ tid in
       if N.eqb (br_code rsp) cOK then
         let tf := match alookup name mem' with Some t => t_fams t | None => [] end in
-        (* SetTableMeta: MkdirAll(dir); write temp; rename.  Then RemoveAll(dir); open a fresh DB *)
-        let im1 := match alookup name (im_dirs im0) with Some _ => im0 | None => set_dir im0 name (Some []) end in
+        (* RemoveAll(dir) (what an earlier table of this name left behind); SetTableMeta: MkdirAll(dir);
+           write temp; rename.  Then RemoveAll(dir); open a fresh DB *)
+        let imc := set_dir im0 name None in
+        let im1 := set_dir imc name (Some []) in
         let im2 := set_meta im1 name tf in
         let im3 := set_dir im2 name None in
         (mkDState mem' (ainsert name tf (ds_meta d)) (aremove name (ds_orphans d)), rsp,
-         [(s_meta_tmp, im1); (s_meta_renamed, im2); (s_db_removed, im3)])
+         [(s_create_cleaned, imc); (s_meta_tmp, im1); (s_meta_renamed, im2); (s_db_removed, im3)])
       else (d, rsp, [])
   | BDeleteTable name =>
       if N.eqb (br_code rsp) cOK then
         (* os.Remove(<name>.table.proto); os.RemoveAll(<name>/) *)
-        (mkDState mem' (aremove name (ds_meta d)) (aremove name (ds_orphans d)), rsp, [])
+        (mkDState mem' (aremove name (ds_meta d)) (aremove name (ds_orphans d)), rsp,
+         [(s_delete_undefined, unset_meta im0 name)])
       else (d, rsp, [])
   | BModifyFamilies name mods =>
       if N.eqb (br_code rsp) cOK then
